@@ -18,7 +18,9 @@ RULE = ("inputs {lone file, flat directory, nested directory, missing path, file
 
 EXTRAS = {"none": [], "p": ["-p", "P"], "p2": ["-p", "two words"], "e": ["-e", "sub/"], "s": ["-s", "{cfg}"],
           "e2": ["-e", "other/"], "p3": ["-p", "sub/"],
-          "p4": ["-p", "cmake-reference"], "e3": ["-e", "*-removed*"]}     # values that contain the characters of a flag     # e+e2 repeat a flag, p3+e repeat a value
+          "p4": ["-p", "cmake-reference"], "e3": ["-e", "*-removed*"],
+          # relative values with an inner slash (they mean what the command line makes of them, nothing else)
+          "e4": ["-e", "nested/sub/b.cmake"], "e5": ["--exclude", "sub/deep"]}     # values that contain the characters of a flag     # e+e2 repeat a flag, p3+e repeat a value
 INPUTS = ["file", "flat", "nested", "missing", "badfile", "baddir"]
 
 CLI = ("import sys; sys.path.insert(0, %r); import warnings; warnings.filterwarnings('ignore'); import cminx; "
@@ -63,19 +65,30 @@ def run_case(job):
             target = paths[inp]
             out_cm, out_cli = "out-cmake", "out-cli"
             extra = [a if not os.path.isabs(a) else os.path.relpath(a, work) for a in extra]
+        cwd = work
+        driver = box.path("driver.cmake")
+        if variant == "relative-from-elsewhere":
+            # relative input and output, the script lives next to the inputs but cmake runs in another directory: the
+            # paths mean what they mean to the command line started there (normally: the input does not exist)
+            target = paths[inp]
+            out_cm, out_cli = "out-cmake", "out-cli"
+            cwd = box.path("elsewhere")
+            os.makedirs(cwd, exist_ok=True)
+            driver = os.path.join(work, "driver.cmake")
+            extra = [a if not os.path.isabs(a) else os.path.relpath(a, cwd) for a in extra]
         quoted = " ".join('"' + a.replace('"', '\\"') + '"' for a in extra)
         call = f'cminx_gen_rst("{target}" "{out_cm}" {quoted})'
         if variant == "in-function":
             # called from inside a user function that itself received more arguments than the call passes on
             call = f'function(make_docs a b c d e f g)\n  {call}\nendfunction()\nmake_docs(1 2 3 4 5 6 7)'
-        with open(box.path("driver.cmake"), "w") as f:
+        with open(driver, "w") as f:
             f.write(f'set(CMINX_EXECUTABLE "{wrapper}")\n'
                     f'include("{os.path.join(common.REPO_ROOT, "cmake", "cminx.cmake")}")\n'
                     f'{call}\n'
                     f'message(STATUS "REACHED-AFTER-CALL")\n')
         env = dict(os.environ, CMINXDIR=box.path("cfg"), HOME=box.path("home"), XDG_CONFIG_HOME=box.path("home", ".config"))
-        pc = subprocess.run(["cmake", "-P", box.path("driver.cmake")], cwd=work, env=env, capture_output=True, text=True)
-        isdir = os.path.isdir(os.path.join(work, target))
+        pc = subprocess.run(["cmake", "-P", driver], cwd=cwd, env=env, capture_output=True, text=True)
+        isdir = os.path.isdir(os.path.join(cwd, target))
         want = [target] + (["-r"] if isdir else []) + extra + ["-o", out_cm]
         logged = open(log).read().split("\n")[:-1] if os.path.exists(log) else None
         if logged is None:
@@ -86,9 +99,9 @@ def run_case(job):
                 out_ = []
                 for n_, a_ in enumerate(lst):
                     if a_ in (target, out_cm) or (n_ and lst[n_ - 1] == "-o") or \
-                            os.path.abspath(os.path.join(work, a_)) in (os.path.abspath(os.path.join(work, target)),
-                                                                        os.path.abspath(os.path.join(work, out_cm))):
-                        a_ = os.path.abspath(os.path.join(work, a_))
+                            os.path.abspath(os.path.join(cwd, a_)) in (os.path.abspath(os.path.join(cwd, target)),
+                                                                       os.path.abspath(os.path.join(cwd, out_cm))):
+                        a_ = os.path.abspath(os.path.join(cwd, a_))
                     out_.append(a_)
                 return out_
             if sorted(canon(logged)) != sorted(canon(want)):
@@ -100,7 +113,7 @@ def run_case(job):
                 if "-o" in logged and canon(logged)[logged.index("-o") + 1:logged.index("-o") + 2] != canon(["-o", out_cm])[1:]:
                     msgs.append(f"argv: -o is not followed by the output directory: {logged}")
         direct = [target] + (["-r"] if isdir else []) + extra + ["-o", out_cli]
-        pd = subprocess.run([common.PYTHON, "-c", CLI % common.REPO_SRC] + direct, cwd=work, env=env,
+        pd = subprocess.run([common.PYTHON, "-c", CLI % common.REPO_SRC] + direct, cwd=cwd, env=env,
                             capture_output=True, text=True)
         fail_direct = pd.returncode != 0
         fail_cmake = pc.returncode != 0
@@ -112,8 +125,11 @@ def run_case(job):
             msgs.append("status: CMinx failed but the CMake script continued after cminx_gen_rst()")
         if not fail_direct and not reached and not fail_cmake:
             msgs.append("status: the command after cminx_gen_rst() was not reached although nothing failed")
-        t_cm = box.files("work/out-cmake") if os.path.isdir(os.path.join(work, "out-cmake")) else {}
-        t_cli = box.files("work/out-cli") if os.path.isdir(os.path.join(work, "out-cli")) else {}
+        rc = os.path.relpath(cwd, box.root)
+        t_cm = box.files(rc + "/out-cmake") if os.path.isdir(os.path.join(cwd, "out-cmake")) else {}
+        t_cli = box.files(rc + "/out-cli") if os.path.isdir(os.path.join(cwd, "out-cli")) else {}
+        if logged is None and fail_direct and variant == "relative-from-elsewhere":
+            msgs = [m for m in msgs if not m.startswith("argv:")]     # a call that fails before running anything is a failure, too
         if t_cm != t_cli:
             diffk = sorted(k for k in set(t_cm) | set(t_cli) if t_cm.get(k) != t_cli.get(k))
             msgs.append(f"tree: output of cminx_gen_rst differs from the direct run in {diffk[:5]} (variant {variant})")
@@ -193,6 +209,7 @@ def run(ctx):
         for ex in ([], ["p"], ["s"], ["e", "s"]):
             jobs.append((inp, ex, "in-function"))
             jobs.append((inp, ex, "relative"))
+            jobs.append((inp, ex, "relative-from-elsewhere"))
     ctx.cov["bounds"] = {"inputs": INPUTS, "extras": EXTRAS, "cases": len(jobs)}
     ctx.sweep(run_case, jobs, space="inputs x extra-argument lists", selftest=1, chunk=1, isolate=False)
     seq = [(inp, e1, e2, edit) for inp in ("file", "flat", "nested")
